@@ -74,6 +74,18 @@ def atoms_of(cond: ast.AST, positive: bool = True) -> List[Atom]:
         return out
     if isinstance(cond, ast.Call) and isinstance(cond.func, ast.Name) and cond.func.id == "bool" and len(cond.args) == 1:
         return atoms_of(cond.args[0], positive)
+    if isinstance(cond, ast.IfExp):
+        # conditional expressions with a boolean literal arm are conjunctions / disjunctions in disguise
+        def lit(e, v):
+            return isinstance(e, ast.Constant) and e.value is v
+        if positive and lit(cond.body, False):        # (False if C else X)  <=>  not C and X
+            return atoms_of(cond.test, False) + atoms_of(cond.orelse, True)
+        if positive and lit(cond.orelse, False):      # (X if C else False)  <=>  C and X
+            return atoms_of(cond.test, True) + atoms_of(cond.body, True)
+        if not positive and lit(cond.body, True):     # not (True if C else X)  <=>  not C and not X
+            return atoms_of(cond.test, False) + atoms_of(cond.orelse, False)
+        if not positive and lit(cond.orelse, True):   # not (X if C else True)  <=>  C and not X
+            return atoms_of(cond.test, True) + atoms_of(cond.body, False)
     return [("truthy" if positive else "falsy", unparse(cond), None)]
 
 
